@@ -47,6 +47,10 @@ pub struct Profile {
     pub v1: bool,
     /// lock-step lease scenario (C16): rounds of the majority heartbeat schedule with a free minority
     pub lease_rounds: usize,
+    /// payload lengths vary between 1 and `payload_len + 4` bytes
+    pub payload_var: bool,
+    /// fixed values for (max_size_per_msg, max_uncommitted_size) of every node; None = defaults / random
+    pub size_knobs: Option<(i64, i64)>,
     /// name of a scripted scenario (phases of the random scheduler under explicit partitions); empty = none
     pub script: String,
 }
@@ -86,6 +90,8 @@ impl Profile {
             joint: false,
             v1: false,
             lease_rounds: 0,
+            payload_var: false,
+            size_knobs: None,
             script: String::new(),
         }
     }
@@ -141,6 +147,7 @@ impl Profile {
                 p.w_partition = 3;
             }
             "flow" => {
+                p.payload_var = true;
                 p.randomize_knobs = true;
                 p.proposals = 20;
                 p.w_drop = 5;
@@ -259,6 +266,7 @@ impl Profile {
                 p.max_log = 30;
             }
             "s_flowelect" => {
+                p.payload_var = true;
                 p.script = "flow_elect".into();
                 p.randomize_knobs = true;
                 p.w_crash = 0;
@@ -310,6 +318,101 @@ impl Profile {
                 p.conf_changes = 12;
                 p.max_log = 40;
                 p.proposals = 20;
+            }
+            "s_dualpv" => {
+                p.ids = vec![1, 2, 3];
+                p.voters = vec![1, 2, 3];
+                p.script = "dual_campaign".into();
+                p.pre_vote = true;
+                p.w_crash = 0;
+                p.w_partition = 0;
+                p.w_drop = 0;
+                p.w_dup = 2;
+            }
+            "s_dual" => {
+                p.ids = vec![1, 2, 3];
+                p.voters = vec![1, 2, 3];
+                p.script = "dual_campaign".into();
+                p.w_crash = 0;
+                p.w_partition = 0;
+                p.w_drop = 1;
+                p.w_dup = 2;
+            }
+            "s_asyncover" => {
+                p.ids = vec![1, 2, 3];
+                p.voters = vec![1, 2, 3];
+                p.script = "async_overwrite".into();
+                p.w_crash = 0;
+                p.w_partition = 0;
+                p.w_drop = 1;
+                p.async_pct = 60;
+                p.proposals = 20;
+                p.max_log = 30;
+            }
+            "s_demote" => {
+                p.ids = vec![1, 2, 3, 4];
+                p.voters = vec![1, 2, 3, 4];
+                p.script = "demote_transfer".into();
+                p.w_crash = 0;
+                p.w_partition = 0;
+                p.w_drop = 1;
+                p.max_log = 30;
+            }
+            "s_tailelect" => {
+                p.ids = vec![1, 2, 3];
+                p.voters = vec![1, 2, 3];
+                p.script = "tail_elect".into();
+                p.w_crash = 0;
+                p.w_partition = 0;
+                p.w_drop = 0;
+                p.w_dup = 1;
+                p.payload_len = 3;
+                p.size_knobs = Some((4, 4));
+                p.proposals = 20;
+                p.max_log = 40;
+            }
+            "s_staleack" => {
+                p.ids = vec![1, 2, 3];
+                p.voters = vec![1, 2, 3];
+                p.script = "stale_ack_snap".into();
+                p.w_crash = 0;
+                p.w_partition = 0;
+                p.w_drop = 0;
+                p.proposals = 20;
+                p.max_log = 40;
+            }
+            "s_reqsnap" => {
+                p.ids = vec![1, 2, 3];
+                p.voters = vec![1, 2, 3];
+                p.script = "reqsnap_race".into();
+                p.w_crash = 0;
+                p.w_partition = 0;
+                p.w_drop = 0;
+                p.proposals = 20;
+                p.max_log = 40;
+            }
+            "s_snapdup" => {
+                p.ids = vec![1, 2, 3];
+                p.voters = vec![1, 2, 3];
+                p.script = "snap_dup".into();
+                p.w_crash = 0;
+                p.w_partition = 0;
+                p.w_drop = 1;
+                p.proposals = 30;
+                p.max_log = 50;
+            }
+            "s_sizes" => {
+                p.ids = vec![1, 2, 3];
+                p.voters = vec![1, 2, 3];
+                p.script = "lag_flow".into();
+                p.w_crash = 0;
+                p.w_partition = 0;
+                p.w_drop = 1;
+                p.payload_len = 4;
+                p.payload_var = true;
+                p.size_knobs = Some((22, -1));
+                p.proposals = 40;
+                p.max_log = 60;
             }
             "s_lagsnap_live" => {
                 p.script = "lag_snap".into();
@@ -401,6 +504,13 @@ pub struct Sched {
     pub blocked_types: Vec<(u64, String)>,
     /// (destination, type): such messages stay in flight, neither delivered nor dropped
     pub hold_types: Vec<(u64, String)>,
+    /// (from, to, type): such messages stay in flight
+    pub hold_from: Vec<(u64, u64, String)>,
+    /// (node, kind of step) that the scheduler does not take while a scripted phase lasts
+    /// (kinds: "Ready", "Notify", "Apply", "Tick", "Fsync"); the step stays enabled, it is only postponed
+    pub frozen: Vec<(u64, &'static str)>,
+    /// nodes whose Readies are always handled asynchronously while a scripted phase lasts
+    pub force_async: Vec<u64>,
     pub w_apply: u32,
     /// messages that stay in the network for a long time: view-json -> step at which they may be delivered
     pub held: std::collections::HashMap<String, usize>,
@@ -446,6 +556,10 @@ pub fn cluster_cfg(prof: &Profile, rng: &mut StdRng) -> ClusterCfg {
                 k.max_apply_unpersisted_log_limit = 2;
             }
         }
+        if let Some((ms, mu)) = prof.size_knobs {
+            k.max_size_per_msg = ms;
+            k.max_uncommitted_size = mu;
+        }
         knobs.push(k);
     }
     if prof.randomize_knobs && rng.gen_bool(0.3) {
@@ -477,6 +591,9 @@ impl Sched {
             blocked: vec![],
             blocked_types: vec![],
             hold_types: vec![],
+            hold_from: vec![],
+            frozen: vec![],
+            force_async: vec![],
             w_apply: 20,
             held: Default::default(),
             seen: Default::default(),
@@ -504,6 +621,10 @@ impl Sched {
         }
     }
 
+    fn is_frozen(&self, n: u64, kind: &str) -> bool {
+        self.frozen.iter().any(|(x, k)| *x == n && *k == kind)
+    }
+
     fn is_blocked(&self, from: u64, to: u64) -> bool {
         self.blocked.contains(&(from, to))
     }
@@ -512,7 +633,11 @@ impl Sched {
         let id = self.next_payload;
         self.next_payload += 1;
         let mut s = format!("{}", id);
-        while s.len() < self.prof.payload_len {
+        let want = if self.prof.payload_var { self.rng.gen_range(1..=self.prof.payload_len + 4) } else { self.prof.payload_len };
+        if self.prof.payload_var && s.len() > want {
+            s = s[s.len() - want..].to_string();
+        }
+        while s.len() < want {
             s.insert(0, 'v');
         }
         s
@@ -598,13 +723,13 @@ impl Sched {
             if p.w_crash > 0 && down < p.max_down {
                 cands.push((1, Choice::Crash { n }));
             }
-            if !slot.app.pending.is_empty() {
+            if !slot.app.pending.is_empty() && !self.is_frozen(n, "Fsync") {
                 let nums: Vec<u64> = slot.app.pending.iter().map(|b| b.number).collect();
                 let upto = *nums.choose(&mut self.rng).unwrap();
                 cands.push((10, Choice::Fsync { n, upto }));
             }
             if slot.app.outstanding.is_some() {
-                if self.async_mode[i] {
+                if self.async_mode[i] || self.force_async.contains(&n) {
                     cands.push((40, Choice::AdvanceAsync { n }));
                 } else if self.rng.gen_range(0..100) < p.full_advance_pct {
                     cands.push((40, Choice::Advance { n }));
@@ -614,19 +739,23 @@ impl Sched {
                 continue;
             }
             // idle node
-            cands.push((p.w_tick, Choice::Tick { n }));
-            if raw.has_ready() {
+            if !self.is_frozen(n, "Tick") {
+                cands.push((p.w_tick, Choice::Tick { n }));
+            }
+            if raw.has_ready() && self.is_frozen(n, "Ready") {
+            } else if raw.has_ready() {
                 cands.push((45, Choice::Ready { n }));
             } else if self.rng.gen_range(0..400) == 0 {
                 cands.push((1, Choice::ReadyForce { n }));
             }
-            if slot.app.last_durable > slot.app.last_notified {
+            if slot.app.last_durable > slot.app.last_notified && !self.is_frozen(n, "Notify") {
                 let number = self
                     .rng
                     .gen_range(slot.app.last_notified + 1..=slot.app.last_durable);
                 cands.push((25, Choice::Notify { n, number }));
             }
-            if let (Some(f), Some(b)) = (slot.app.apply_queue.front(), slot.app.apply_queue.back())
+            if self.is_frozen(n, "Apply") {
+            } else if let (Some(f), Some(b)) = (slot.app.apply_queue.front(), slot.app.apply_queue.back())
             {
                 let lo = f.index.max(slot.app.applied);
                 if b.index >= lo {
@@ -765,7 +894,9 @@ impl Sched {
                 }
                 let to_ok = p.ids.contains(&m.to) && cl.is_up(m.to);
                 let idle = to_ok && cl.nodes[cl.slot(m.to)].app.outstanding.is_none();
-                if self.hold_types.iter().any(|(t, ty)| *t == m.to && *ty == mv.ty) {
+                if self.hold_types.iter().any(|(t, ty)| *t == m.to && *ty == mv.ty)
+                    || self.hold_from.iter().any(|(f, t, ty)| *f == m.from && *t == m.to && *ty == mv.ty)
+                {
                     continue;
                 }
                 let ty_blocked = self.blocked_types.iter().any(|(t, ty)| *t == m.to && *ty == mv.ty);
@@ -956,6 +1087,9 @@ impl Sched {
         self.blocked.clear();
         self.blocked_types.clear();
         self.hold_types.clear();
+        self.hold_from.clear();
+        self.frozen.clear();
+        self.force_async.clear();
         crate::sim::PROBE_PAYLOAD.with(|p| *p.borrow_mut() = payload.to_string());
         let ids = cl.cfg.ids.clone();
         let mut push = |cl: &mut Cluster, c: Choice, out: &mut Vec<Event>| {
@@ -1332,6 +1466,59 @@ impl Sched {
         Self::leader_of(cl)
     }
 
+    /// Runs scheduler steps until `pred` holds (checked before every step); false if `max` steps did not suffice.
+    fn run_until<F: Fn(&Cluster) -> bool>(&mut self, cl: &mut Cluster, out: &mut Vec<Event>, max: usize, pred: F) -> bool {
+        // no new long message holds while a scripted phase waits for something
+        let hold = std::mem::replace(&mut self.hold_pct, 0);
+        let mut ok = false;
+        for _ in 0..max {
+            if pred(cl) {
+                ok = true;
+                break;
+            }
+            let c = match self.next_choice(cl) {
+                Some(c) => c,
+                None => break,
+            };
+            self.apply_rec(cl, out, c);
+        }
+        self.hold_pct = hold;
+        ok || pred(cl)
+    }
+
+    /// Applies `c` (a call on node `n`) as soon as the node's application is idle.
+    fn idle_then(&mut self, cl: &mut Cluster, out: &mut Vec<Event>, n: u64, c: Choice) -> bool {
+        self.run_until(cl, out, 60, |cl| cl.is_up(n) && cl.nodes[cl.slot(n)].app.outstanding.is_none());
+        self.do_choice(cl, out, c)
+    }
+
+    fn is_leader(cl: &Cluster, n: u64) -> bool {
+        cl.nodes[cl.slot(n)].raw.as_ref().map_or(false, |r| r.raft.state == raft::StateRole::Leader)
+    }
+
+    fn last_of(cl: &Cluster, n: u64) -> u64 {
+        cl.nodes[cl.slot(n)].raw.as_ref().map_or(0, |r| r.raft.raft_log.last_index())
+    }
+
+    fn committed_of(cl: &Cluster, n: u64) -> u64 {
+        cl.nodes[cl.slot(n)].raw.as_ref().map_or(0, |r| r.raft.raft_log.committed)
+    }
+
+    fn others(&mut self, ids: &[u64], l: u64) -> Vec<u64> {
+        let mut v: Vec<u64> = ids.iter().copied().filter(|x| *x != l).collect();
+        v.shuffle(&mut self.rng);
+        v
+    }
+
+    fn clear_script_controls(&mut self) {
+        self.blocked.clear();
+        self.blocked_types.clear();
+        self.hold_types.clear();
+        self.hold_from.clear();
+        self.frozen.clear();
+        self.force_async.clear();
+    }
+
     fn isolate(&mut self, group: &[u64], all: &[u64]) {
         self.blocked.clear();
         for a in group {
@@ -1361,7 +1548,7 @@ impl Sched {
                 if name == "stale_read_joint" {
                     // shrink to {l} through an explicit joint configuration and let the leader apply it
                     let ch: Vec<ChV> = ids.iter().filter(|x| **x != l).map(|x| ChV { t: "R".into(), id: *x }).collect();
-                    self.do_choice(cl, out, Choice::ProposeConf { n: l, v1: false, tr: "E".into(), ch });
+                    self.idle_then(cl, out, l, Choice::ProposeConf { n: l, v1: false, tr: "E".into(), ch });
                     self.run_steps(cl, out, 120);
                 }
                 // the leader (and sometimes a non-voter / one more node) is cut off from the rest
@@ -1446,7 +1633,7 @@ impl Sched {
                                 if Self::leader_of(cl) == Some(l2) {
                                     break;
                                 }
-                                self.do_choice(cl, out, Choice::Campaign { n: l2 });
+                                self.idle_then(cl, out, l2, Choice::Campaign { n: l2 });
                                 self.run_steps(cl, out, 50);
                             }
                         }
@@ -1476,7 +1663,7 @@ impl Sched {
                     for k in 0..3 {
                         let ctx = format!("q{}{}", self.next_ctx % 10, k);
                         self.next_ctx += 1;
-                        self.do_choice(cl, out, Choice::ReadIndex { n: f, ctx });
+                        self.idle_then(cl, out, f, Choice::ReadIndex { n: f, ctx });
                         self.run_steps(cl, out, 25);
                     }
                     self.blocked_types.clear();
@@ -1500,11 +1687,38 @@ impl Sched {
                     let mut e1 = crate::view::EntryV { ty: "N".into(), ..Default::default() };
                     e1.p = self.payload();
                     let e2 = crate::view::EntryV { ty: "C2".into(), tr, ch, sz: 1, ..Default::default() };
-                    let ents = if self.rng.gen_bool(0.7) { vec![e1, e2] } else { vec![e2, e1] };
-                    self.do_choice(cl, out, Choice::ProposeBatch { n: l, ents });
+                    // nothing else is pending when the batch is proposed
+                    let keepc = std::mem::replace(&mut self.conf_left, 0);
+                    self.run_until(cl, out, 150, |cl| {
+                        let a = &cl.nodes[cl.slot(l)];
+                        a.raw.as_ref().map_or(false, |r| r.raft.raft_log.applied == r.raft.raft_log.last_index()) && a.app.outstanding.is_none()
+                    });
+                    self.conf_left = keepc;
+                    let normal_first = self.rng.gen_bool(0.7);
+                    let ents = if normal_first { vec![e1, e2] } else { vec![e2, e1] };
+                    let before = Self::last_of(cl, l);
+                    if normal_first && self.rng.gen_bool(0.7) {
+                        // the application applies the normal entry of the batch but not yet the change behind it
+                        self.frozen = vec![(l, "Apply")];
+                        self.idle_then(cl, out, l, Choice::ProposeBatch { n: l, ents });
+                        let handed = self.run_until(cl, out, 150, |cl| {
+                            cl.nodes[cl.slot(l)].app.apply_queue.back().map_or(false, |e| e.index >= before + 2)
+                                && cl.nodes[cl.slot(l)].app.outstanding.is_none()
+                        });
+                        if handed && Self::last_of(cl, l) >= before + 2 {
+                            self.do_choice(cl, out, Choice::Apply { n: l, k: before + 1 });
+                            let (v1, tr, ch) = self.random_cc(cl);
+                            self.idle_then(cl, out, l, Choice::ProposeConf { n: l, v1, tr, ch });
+                            self.run_steps(cl, out, 30);
+                        }
+                        self.frozen.clear();
+                        self.run_steps(cl, out, 60);
+                        continue;
+                    }
+                    self.idle_then(cl, out, l, Choice::ProposeBatch { n: l, ents });
                     self.run_steps(cl, out, 40);
                     let (v1, tr, ch) = self.random_cc(cl);
-                    self.do_choice(cl, out, Choice::ProposeConf { n: l, v1, tr, ch });
+                    self.idle_then(cl, out, l, Choice::ProposeConf { n: l, v1, tr, ch });
                     self.run_steps(cl, out, 60);
                     self.w_apply = 20;
                     self.run_steps(cl, out, 40);
@@ -1516,7 +1730,7 @@ impl Sched {
                     Some(l) => l,
                     None => return,
                 };
-                for round in 0..4 {
+                for round in 0..5 {
                     let l = Self::leader_of(cl).unwrap_or(l);
                     let t = *ids.iter().filter(|x| **x != l).collect::<Vec<_>>().choose(&mut self.rng).unwrap().clone();
                     if round % 2 == 1 {
@@ -1526,15 +1740,39 @@ impl Sched {
                         self.run_steps(cl, out, 60);
                         self.blocked.clear();
                     }
+                    if round == 2 || round == 4 {
+                        // MsgTimeoutNow is delayed; the transfer times out, the leader commits new entries with
+                        // the other follower, then the delayed message reaches the (now stale) target
+                        let keep = std::mem::replace(&mut self.proposals_left, 0);
+                        self.run_steps(cl, out, 40);
+                        self.hold_from = vec![(l, t, "TimeoutNow".into()), (l, t, "App".into())];
+                        self.idle_then(cl, out, l, Choice::Transfer { n: l, to: t });
+                        let aborted = self.run_until(cl, out, 300, |cl| {
+                            cl.nodes[cl.slot(l)].raw.as_ref().map_or(true, |r| r.raft.lead_transferee.is_none())
+                        });
+                        if aborted && Self::is_leader(cl, l) {
+                            for _ in 0..2 {
+                                let p = self.payload();
+                                self.idle_then(cl, out, l, Choice::Propose { n: l, p });
+                                self.run_steps(cl, out, 30);
+                            }
+                            self.hold_from = vec![(l, t, "App".into())];
+                            self.run_steps(cl, out, 80);
+                        }
+                        self.hold_from.clear();
+                        self.proposals_left = keep;
+                        self.run_steps(cl, out, 120);
+                        continue;
+                    }
                     if self.rng.gen_bool(0.5) {
                         let p = self.payload();
-                        self.do_choice(cl, out, Choice::Propose { n: l, p });
+                        self.idle_then(cl, out, l, Choice::Propose { n: l, p });
                     }
-                    self.do_choice(cl, out, Choice::Transfer { n: l, to: t });
+                    self.idle_then(cl, out, l, Choice::Transfer { n: l, to: t });
                     if self.rng.gen_bool(0.4) {
                         // demote or remove the target while the transfer is pending
                         let ty = if self.rng.gen_bool(0.5) { "L" } else { "R" };
-                        self.do_choice(cl, out, Choice::ProposeConf { n: l, v1: false, tr: "A".into(), ch: vec![ChV { t: ty.into(), id: t }] });
+                        self.idle_then(cl, out, l, Choice::ProposeConf { n: l, v1: false, tr: "A".into(), ch: vec![ChV { t: ty.into(), id: t }] });
                     }
                     self.prof.w_campaign = if self.rng.gen_bool(0.5) { 4 } else { 0 };
                     self.run_steps(cl, out, 160);
@@ -1545,7 +1783,7 @@ impl Sched {
                         let t = *ids.iter().filter(|x| **x != l).collect::<Vec<_>>().choose(&mut self.rng).unwrap().clone();
                         self.prof.w_campaign = 0;
                         self.run_steps(cl, out, 60);
-                        self.do_choice(cl, out, Choice::Transfer { n: l, to: t });
+                        self.idle_then(cl, out, l, Choice::Transfer { n: l, to: t });
                         for _ in 0..6 {
                             if cl.find_match(l, t, "TimeoutNow", -1).is_some() {
                                 break;
@@ -1558,7 +1796,8 @@ impl Sched {
                 }
             }
             "reelect" => {
-                // leadership alternates between two nodes while entries stay uncommitted on minorities
+                // leadership alternates while entries stay uncommitted on minorities; the deposed leader is
+                // elected again later, with whatever it remembers about its peers from its earlier terms
                 let _ = self.until_leader(cl, out, 500);
                 for _ in 0..5 {
                     let l = match Self::leader_of(cl) {
@@ -1568,18 +1807,33 @@ impl Sched {
                             continue;
                         }
                     };
-                    let o = *ids.iter().filter(|x| **x != l).collect::<Vec<_>>().choose(&mut self.rng).unwrap().clone();
+                    let o = self.others(&ids, l)[0];
                     // leader + one follower form a minority that keeps accepting proposals
                     self.isolate(&[l, o], &ids);
                     self.proposals_left = self.proposals_left.max(4);
                     self.run_steps(cl, out, 140);
-                    // the minority follower rejoins the majority alone, the old leader stays cut off
+                    // the minority follower rejoins the majority alone, the old leader stays cut off;
+                    // the majority only elects (no client traffic), so the minority's tail is cut back
                     self.isolate(&[l], &ids);
+                    let keep = std::mem::replace(&mut self.proposals_left, 0);
                     self.run_steps(cl, out, 160);
                     self.blocked.clear();
-                    self.prof.w_campaign = 3;
-                    self.run_steps(cl, out, 120);
-                    self.prof.w_campaign = 0;
+                    self.run_steps(cl, out, 70);
+                    self.proposals_left = keep;
+                    if self.rng.gen_bool(0.7) {
+                        // the old leader stands again once it has caught up
+                        for _ in 0..3 {
+                            if Self::is_leader(cl, l) && Self::leader_of(cl) == Some(l) {
+                                break;
+                            }
+                            self.idle_then(cl, out, l, Choice::Campaign { n: l });
+                            self.run_steps(cl, out, 50);
+                        }
+                    } else {
+                        self.prof.w_campaign = 3;
+                        self.run_steps(cl, out, 120);
+                        self.prof.w_campaign = 0;
+                    }
                 }
             }
             "flow_elect" => {
@@ -1598,6 +1852,360 @@ impl Sched {
                     self.run_steps(cl, out, 120);
                     self.blocked.clear();
                     self.run_steps(cl, out, 150);
+                }
+            }
+            "dual_campaign" => {
+                // two followers start (pre-)elections at the same moment; every leader that results proposes
+                let _ = self.until_leader(cl, out, 400);
+                for _ in 0..5 {
+                    let l = match Self::leader_of(cl) {
+                        Some(l) => l,
+                        None => {
+                            self.run_steps(cl, out, 80);
+                            continue;
+                        }
+                    };
+                    let o = self.others(&ids, l);
+                    self.do_choice(cl, out, Choice::Campaign { n: o[0] });
+                    self.do_choice(cl, out, Choice::Campaign { n: o[1] });
+                    self.run_steps(cl, out, 45);
+                    for n in ids.clone() {
+                        if cl.is_up(n) && Self::is_leader(cl, n) && cl.nodes[cl.slot(n)].app.outstanding.is_none() {
+                            let p = self.payload();
+                            self.idle_then(cl, out, n, Choice::Propose { n, p });
+                        }
+                    }
+                    self.run_steps(cl, out, 140);
+                }
+            }
+            "async_overwrite" => {
+                // a leader whose asynchronously written entries are still unacknowledged by its own disk is
+                // deposed and overwritten exactly there; the persist notifications arrive afterwards
+                let _ = self.until_leader(cl, out, 400);
+                for _ in 0..4 {
+                    let l = match Self::leader_of(cl) {
+                        Some(l) => l,
+                        None => {
+                            self.run_steps(cl, out, 80);
+                            continue;
+                        }
+                    };
+                    self.run_steps(cl, out, 40);
+                    let keep = std::mem::replace(&mut self.proposals_left, 0);
+                    // everything written so far is replicated everywhere, durable and notified
+                    let ids2 = ids.clone();
+                    self.run_until(cl, out, 300, |cl| {
+                        let a = &cl.nodes[cl.slot(l)].app;
+                        a.outstanding.is_none()
+                            && a.last_notified == a.last_taken
+                            && ids2.iter().all(|n| Self::last_of(cl, *n) == Self::last_of(cl, l))
+                    });
+                    self.force_async = vec![l];
+                    self.frozen = vec![(l, "Notify")];
+                    self.isolate(&[l], &ids);
+                    let term0 = cl.nodes[cl.slot(l)].raw.as_ref().map_or(0, |r| r.raft.term);
+                    let k = self.rng.gen_range(1..=2);
+                    for _ in 0..k {
+                        let p = self.payload();
+                        self.idle_then(cl, out, l, Choice::Propose { n: l, p });
+                        self.run_steps(cl, out, 12);
+                    }
+                    // the writes reach the disk, but the node is not told before it has been deposed
+                    self.run_until(cl, out, 300, |cl| {
+                        cl.nodes.iter().any(|s| s.id != l && s.raw.as_ref().map_or(false, |r| r.raft.state == raft::StateRole::Leader && r.raft.term > term0))
+                    });
+                    self.run_steps(cl, out, 40);
+                    self.blocked.clear();
+                    // the deposed leader hears from the new one (its in-memory tail is overwritten as soon as an
+                    // append of the new term fits); its own answers wait for the notifications
+                    self.run_until(cl, out, 200, |cl| {
+                        cl.nodes[cl.slot(l)].raw.as_ref().map_or(false, |r| r.raft.term > term0 && r.raft.raft_log.last_term() > term0)
+                    });
+                    self.run_steps(cl, out, 12);
+                    // now the old notifications arrive, oldest first
+                    for _ in 0..3 {
+                        let (ln, ld) = {
+                            let a = &cl.nodes[cl.slot(l)].app;
+                            (a.last_notified, a.last_durable)
+                        };
+                        if ld > ln && cl.is_up(l) {
+                            self.run_until(cl, out, 40, |cl| cl.nodes[cl.slot(l)].app.outstanding.is_none());
+                            self.do_choice(cl, out, Choice::Notify { n: l, number: ln + 1 });
+                            self.run_steps(cl, out, 10);
+                        }
+                    }
+                    self.frozen.clear();
+                    self.run_steps(cl, out, 60);
+                    self.force_async.clear();
+                    self.proposals_left = keep.max(2);
+                    self.run_steps(cl, out, 60);
+                }
+            }
+            "demote_transfer" => {
+                // a voter is demoted to learner; it applies the change before the (lazy) leader does, and the
+                // leader, still seeing a voter, is asked to transfer leadership to it
+                let _ = self.until_leader(cl, out, 400);
+                for _ in 0..4 {
+                    let l = match Self::leader_of(cl) {
+                        Some(l) => l,
+                        None => {
+                            self.run_steps(cl, out, 80);
+                            continue;
+                        }
+                    };
+                    self.run_steps(cl, out, 50);
+                    let voters: Vec<u64> = cl.nodes[cl.slot(l)].raw.as_ref().unwrap().raft.prs().conf().voters().ids().iter().collect();
+                    let cand: Vec<u64> = voters.iter().copied().filter(|x| *x != l).collect();
+                    if cand.len() < 2 {
+                        // promote somebody back first
+                        let (v1, tr, ch) = self.random_cc(cl);
+                        self.idle_then(cl, out, l, Choice::ProposeConf { n: l, v1, tr, ch });
+                        self.run_steps(cl, out, 120);
+                        continue;
+                    }
+                    let t = *cand.choose(&mut self.rng).unwrap();
+                    self.frozen = vec![(l, "Apply")];
+                    self.idle_then(cl, out, l, Choice::ProposeConf { n: l, v1: false, tr: "A".into(), ch: vec![ChV { t: "L".into(), id: t }] });
+                    self.run_until(cl, out, 200, |cl| {
+                        cl.nodes[cl.slot(t)].raw.as_ref().map_or(false, |r| r.raft.prs().conf().learners().contains(&t))
+                    });
+                    self.idle_then(cl, out, l, Choice::Transfer { n: l, to: t });
+                    self.run_steps(cl, out, 70);
+                    self.frozen.clear();
+                    self.run_steps(cl, out, 120);
+                }
+            }
+            "tail_elect" => {
+                // a follower is elected while it holds an uncommitted tail of the previous term; it commits the
+                // tail, admits a proposal before its application has taken the Ready handing the tail out, and
+                // is then cut off so that the proposal stays uncommitted
+                let _ = self.until_leader(cl, out, 400);
+                for _ in 0..4 {
+                    let l = match Self::leader_of(cl) {
+                        Some(l) => l,
+                        None => {
+                            self.run_steps(cl, out, 80);
+                            continue;
+                        }
+                    };
+                    let keep = std::mem::replace(&mut self.proposals_left, 0);
+                    self.run_steps(cl, out, 60);
+                    let ox = self.others(&ids, l);
+                    let (o, x) = (ox[0], ox[1]);
+                    // only o can acknowledge; as soon as it holds the new entry the old leader is cut off
+                    self.isolate(&[x], &ids);
+                    let p = self.payload();
+                    self.idle_then(cl, out, l, Choice::Propose { n: l, p });
+                    let ok = self.run_until(cl, out, 120, |cl| {
+                        Self::last_of(cl, o) == Self::last_of(cl, l) && Self::last_of(cl, o) > Self::committed_of(cl, o)
+                    });
+                    self.isolate(&[l], &ids);
+                    if ok {
+                        self.frozen = vec![(l, "Tick")];
+                        for _ in 0..3 {
+                            if Self::is_leader(cl, o) {
+                                break;
+                            }
+                            self.idle_then(cl, out, o, Choice::Campaign { n: o });
+                            self.run_until(cl, out, 60, |cl| Self::is_leader(cl, o));
+                        }
+                        if Self::is_leader(cl, o) {
+                            // until the tail is committed at o; nothing has been handed out yet for it
+                            let done = self.run_until(cl, out, 120, |cl| Self::committed_of(cl, o) == Self::last_of(cl, o));
+                            if done {
+                                let p = self.payload();
+                                self.idle_then(cl, out, o, Choice::Propose { n: o, p });
+                                self.isolate(&[o], &ids);
+                                self.run_steps(cl, out, 40);
+                                for _ in 0..3 {
+                                    let p = self.payload();
+                                    self.idle_then(cl, out, o, Choice::Propose { n: o, p });
+                                    self.run_steps(cl, out, 8);
+                                }
+                            }
+                        }
+                    }
+                    self.clear_script_controls();
+                    self.proposals_left = keep;
+                    self.run_steps(cl, out, 140);
+                }
+            }
+            "stale_ack_snap" => {
+                // old acknowledgements of a follower arrive while the leader waits for a snapshot to reach it
+                let _ = self.until_leader(cl, out, 400);
+                self.prof.w_compact = 0;
+                for _ in 0..4 {
+                    let l = match Self::leader_of(cl) {
+                        Some(l) => l,
+                        None => {
+                            self.run_steps(cl, out, 80);
+                            continue;
+                        }
+                    };
+                    self.run_steps(cl, out, 50);
+                    let f = self.others(&ids, l)[0];
+                    let keep = std::mem::replace(&mut self.proposals_left, 0);
+                    self.hold_from = vec![(f, l, "AppResp".into())];
+                    for _ in 0..2 {
+                        let p = self.payload();
+                        self.idle_then(cl, out, l, Choice::Propose { n: l, p });
+                        self.run_steps(cl, out, 25);
+                    }
+                    self.idle_then(cl, out, l, Choice::Unreachable { n: l, j: f });
+                    self.blocked = vec![(l, f)];
+                    for _ in 0..2 {
+                        let p = self.payload();
+                        self.idle_then(cl, out, l, Choice::Propose { n: l, p });
+                        self.run_steps(cl, out, 30);
+                    }
+                    // the leader's application compacts everything it has applied
+                    self.run_until(cl, out, 120, |cl| {
+                        let a = &cl.nodes[cl.slot(l)];
+                        a.app.applied == Self::last_of(cl, l) && a.dur.hs.commit >= a.app.applied && a.app.outstanding.is_none()
+                    });
+                    self.do_choice(cl, out, Choice::MakeSnap { n: l });
+                    let k = cl.nodes[cl.slot(l)].app.applied.min(cl.nodes[cl.slot(l)].dur.hs.commit);
+                    self.do_choice(cl, out, Choice::Compact { n: l, k });
+                    self.run_steps(cl, out, 10);
+                    self.blocked.clear();
+                    self.hold_from.push((l, f, "Snap".into()));
+                    let snap = self.run_until(cl, out, 120, |cl| {
+                        cl.nodes[cl.slot(l)].raw.as_ref().map_or(false, |r| {
+                            r.raft.state == raft::StateRole::Leader
+                                && r.raft.prs().get(f).map_or(false, |p| p.state == raft::ProgressState::Snapshot)
+                        })
+                    });
+                    if snap {
+                        // the old acknowledgements are released, the snapshot is still on its way
+                        self.hold_from = vec![(l, f, "Snap".into())];
+                        self.run_steps(cl, out, 50);
+                    }
+                    self.clear_script_controls();
+                    self.proposals_left = keep;
+                    self.run_steps(cl, out, 120);
+                }
+            }
+            "reqsnap_race" => {
+                // a follower asks for a snapshot while appends for it are in flight; the third voter is slow
+                let _ = self.until_leader(cl, out, 400);
+                self.prof.w_reqsnap = 0;
+                for _ in 0..4 {
+                    let l = match Self::leader_of(cl) {
+                        Some(l) => l,
+                        None => {
+                            self.run_steps(cl, out, 80);
+                            continue;
+                        }
+                    };
+                    let keep = std::mem::replace(&mut self.proposals_left, 0);
+                    self.run_steps(cl, out, 60);
+                    let fx = self.others(&ids, l);
+                    let (f, x) = (fx[0], fx[1]);
+                    // the leader's snapshot must cover everything the follower holds when it asks
+                    self.run_until(cl, out, 200, |cl| {
+                        let a = &cl.nodes[cl.slot(l)];
+                        a.app.applied == Self::last_of(cl, l) && Self::last_of(cl, f) == Self::last_of(cl, l) && a.dur.hs.commit == a.app.applied
+                    });
+                    self.do_choice(cl, out, Choice::MakeSnap { n: l });
+                    self.isolate(&[x], &ids);
+                    self.hold_from = vec![(l, f, "App".into()), (l, f, "Snap".into())];
+                    for _ in 0..2 {
+                        let p = self.payload();
+                        self.idle_then(cl, out, l, Choice::Propose { n: l, p });
+                        self.run_steps(cl, out, 10);
+                    }
+                    let req = Self::last_of(cl, f);
+                    self.idle_then(cl, out, f, Choice::RequestSnap { n: f });
+                    self.run_steps(cl, out, 40);
+                    // the appends arrive while the request is pending; the snapshot arrives before the
+                    // follower hears anything else from the leader
+                    self.hold_from = vec![(l, f, "Snap".into())];
+                    self.run_until(cl, out, 80, |cl| Self::last_of(cl, f) > req);
+                    self.run_steps(cl, out, 6);
+                    self.hold_from = vec![(l, f, "App".into()), (l, f, "HB".into())];
+                    self.run_steps(cl, out, 50);
+                    self.hold_from.clear();
+                    self.run_steps(cl, out, 60);
+                    self.clear_script_controls();
+                    self.proposals_left = keep;
+                    self.run_steps(cl, out, 120);
+                }
+            }
+            "snap_dup" => {
+                // a duplicate of a snapshot message reaches the follower after it has caught up and compacted
+                let _ = self.until_leader(cl, out, 400);
+                self.prof.w_compact = 0;
+                for _ in 0..3 {
+                    let l = match Self::leader_of(cl) {
+                        Some(l) => l,
+                        None => {
+                            self.run_steps(cl, out, 80);
+                            continue;
+                        }
+                    };
+                    let f = self.others(&ids, l)[0];
+                    self.isolate(&[f], &ids);
+                    self.proposals_left = self.proposals_left.max(4);
+                    self.run_steps(cl, out, 110);
+                    self.run_until(cl, out, 120, |cl| {
+                        let a = &cl.nodes[cl.slot(l)];
+                        a.app.applied == Self::committed_of(cl, l) && a.dur.hs.commit >= a.app.applied && a.app.outstanding.is_none()
+                    });
+                    self.do_choice(cl, out, Choice::MakeSnap { n: l });
+                    let k = cl.nodes[cl.slot(l)].app.applied.min(cl.nodes[cl.slot(l)].dur.hs.commit);
+                    self.do_choice(cl, out, Choice::Compact { n: l, k });
+                    self.run_steps(cl, out, 10);
+                    self.blocked.clear();
+                    self.hold_from = vec![(l, f, "Snap".into())];
+                    let seen = self.run_until(cl, out, 700, |cl| {
+                        cl.find_match(l, f, "Snap", -1).is_some() && cl.is_up(f) && cl.nodes[cl.slot(f)].app.outstanding.is_none()
+                    });
+                    if seen {
+                        self.do_choice(cl, out, Choice::DeliverMatch { from: l, to: f, ty: "Snap".into(), idx: -1, keep: true });
+                        self.proposals_left = self.proposals_left.max(3);
+                        self.run_steps(cl, out, 170);
+                        self.run_until(cl, out, 60, |cl| {
+                            let a = &cl.nodes[cl.slot(f)];
+                            a.app.outstanding.is_none() && a.dur.hs.commit >= a.app.applied
+                        });
+                        self.do_choice(cl, out, Choice::MakeSnap { n: f });
+                        let k = cl.nodes[cl.slot(f)].app.applied.min(cl.nodes[cl.slot(f)].dur.hs.commit);
+                        self.do_choice(cl, out, Choice::Compact { n: f, k });
+                        self.hold_from.clear();
+                        self.run_steps(cl, out, 60);
+                    }
+                    self.clear_script_controls();
+                    self.run_steps(cl, out, 100);
+                }
+            }
+            "lag_flow" => {
+                // a follower lags; while it is caught up with size-limited appends the leader keeps accepting
+                // proposals of different sizes whose writes are not yet acknowledged by its own disk
+                let _ = self.until_leader(cl, out, 400);
+                for _ in 0..5 {
+                    let l = match Self::leader_of(cl) {
+                        Some(l) => l,
+                        None => {
+                            self.run_steps(cl, out, 80);
+                            continue;
+                        }
+                    };
+                    let f = self.others(&ids, l)[0];
+                    self.isolate(&[f], &ids);
+                    self.proposals_left = self.proposals_left.max(5);
+                    self.run_steps(cl, out, 100);
+                    self.blocked.clear();
+                    self.force_async = vec![l];
+                    self.frozen = vec![(l, "Notify")];
+                    for _ in 0..self.rng.gen_range(1..=3) {
+                        let p = self.payload();
+                        self.idle_then(cl, out, l, Choice::Propose { n: l, p });
+                    }
+                    self.proposals_left = self.proposals_left.max(3);
+                    self.run_steps(cl, out, 90);
+                    self.frozen.clear();
+                    self.force_async.clear();
+                    self.run_steps(cl, out, 70);
                 }
             }
             "conf_mix" => {
